@@ -53,6 +53,7 @@ type StlCase struct {
 	Cid    *int       `json:"cid,omitempty"` // the case's number in the run it was recorded in (replays keep it)
 	Io     int        `json:"io"`            // reader variant (iomodes.go)
 	Wio    int        `json:"wio"`           // writer variant
+	Rep    int        `json:"rep"`           // > 1: every call is made this many times on the same input, the last result counts
 }
 
 // ---- projections -----------------------------------------------------------
@@ -93,16 +94,26 @@ func stlSrc(m modeling.Mesh, enc Enc, qn int, nexp int) StlSrc {
 
 func stlObs(m modeling.Mesh, enc Enc) StlObs {
 	p := StlObs{Idx: projIdx(m), Pos: [][]int{}, Nrm: [][]int{}}
+	if capRecs < noCap/4 && len(p.Idx) > 3*capRecs {
+		p.Idx = p.Idx[:3*capRecs]
+		capHit = true
+	}
+	lim := func(n int) int {
+		if capRecs < noCap/4 && n > 3*capRecs {
+			return 3 * capRecs
+		}
+		return n
+	}
 	if m.HasFloat3Attribute(modeling.PositionAttribute) {
 		a := m.Float3Attribute(modeling.PositionAttribute)
-		for i := 0; i < a.Len(); i++ {
+		for i := 0; i < lim(a.Len()); i++ {
 			v := a.At(i)
 			p.Pos = append(p.Pos, enc.ObsVec(v.X(), v.Y(), v.Z()))
 		}
 	}
 	if m.HasFloat3Attribute(modeling.NormalAttribute) {
 		a := m.Float3Attribute(modeling.NormalAttribute)
-		for i := 0; i < a.Len(); i++ {
+		for i := 0; i < lim(a.Len()); i++ {
 			v := a.At(i)
 			p.Nrm = append(p.Nrm, []int{scaleNormal(v.X()), scaleNormal(v.Y()), scaleNormal(v.Z())})
 		}
@@ -275,32 +286,36 @@ type sbLine struct {
 func emptyFile() SFile { return SFile{Count: -1, Recs: []SRec{}} }
 func emptyObs() StlObs { return StlObs{Idx: []int{}, Pos: [][]int{}, Nrm: [][]int{}} }
 
-func ioName(c StlCase) string { return readerModeName(c.Io) + "/" + writerModeName(c.Wio) }
+func ioName(c StlCase) string {
+	return fmt.Sprintf("%s/%s/x%d", readerModeName(c.Io), writerModeName(c.Wio), c.Rep)
+}
 
 // stlReadRaw gives the bytes to stl.ReadMesh through the reader variant (RdFile:
 // stl.Load of a file holding them).
 func stlReadRaw(b []byte, mode int, id int) (string, string, StlObs, *modeling.Mesh) {
 	var got *modeling.Mesh
 	msg, detail := guard(func() error {
-		var err error
-		if mode == RdFile {
-			d, derr := caseDir("stl", id)
-			if derr != nil {
-				infra(derr)
+		return repeat(func() error {
+			var err error
+			if mode == RdFile {
+				d, derr := caseDir("stl", id)
+				if derr != nil {
+					infra(derr)
+				}
+				fp := filepath.Join(d, "in.stl")
+				if werr := os.WriteFile(fp, b, 0o644); werr != nil {
+					infra(werr)
+				}
+				got, err = stl.Load(fp)
+				_ = os.Remove(fp)
+			} else {
+				got, err = stl.ReadMesh(wrapReader(b, mode))
 			}
-			fp := filepath.Join(d, "in.stl")
-			if werr := os.WriteFile(fp, b, 0o644); werr != nil {
-				infra(werr)
+			if err == nil && got == nil {
+				return fmt.Errorf("nil mesh without error")
 			}
-			got, err = stl.Load(fp)
-			_ = os.Remove(fp)
-		} else {
-			got, err = stl.ReadMesh(wrapReader(b, mode))
-		}
-		if err == nil && got == nil {
-			return fmt.Errorf("nil mesh without error")
-		}
-		return err
+			return err
+		})
 	})
 	if msg != "" {
 		return msg, detail, emptyObs(), nil
@@ -333,7 +348,7 @@ func stlWrite(m modeling.Mesh, mode int, id int) (string, string, []byte) {
 				infra(derr)
 			}
 			fp := filepath.Join(d, "out.stl")
-			if err := stl.Save(fp, m); err != nil {
+			if err := repeat(func() error { return stl.Save(fp, m) }); err != nil { // the same path again: Save replaces the file
 				return err
 			}
 			b, rerr := os.ReadFile(fp)
@@ -344,13 +359,15 @@ func stlWrite(m modeling.Mesh, mode int, id int) (string, string, []byte) {
 			out = b
 			return nil
 		}
-		sk := newSink(mode)
-		if err := stl.WriteMesh(sk.W, m); err != nil {
+		return repeat(func() error {
+			sk := newSink(mode)
+			if err := stl.WriteMesh(sk.W, m); err != nil {
+				return err
+			}
+			b, err := sk.Bytes()
+			out = b
 			return err
-		}
-		b, err := sk.Bytes()
-		out = b
-		return err
+		})
 	})
 	return msg, detail, out
 }
@@ -454,6 +471,7 @@ func runSw(id int, c StlCase, keep string) swLine {
 		m = stlBuildLattice(*c.Mesh, c.Q, c.Qn)
 	}
 	ln := swLine{K: "sw", Id: id, Lat: c.Enc == "lat", Src: stlSrc(m, enc, c.Qn, nexp), F: emptyFile(), Rd: emptyObs(), Io: ioName(c)}
+	capRecs = len(ln.Src.Idx)/3 + 16
 	var b []byte
 	ln.Werr, ln.Note, b = stlWrite(m, c.Wio, id)
 	if ln.Werr != "" {
@@ -504,6 +522,7 @@ func runSr(id int, c StlCase, keep string) srLine {
 	ln := srLine{K: "sr", Id: id, Lat: c.Enc == "lat", F: emptyFile(), Rd: emptyObs(), F2: emptyFile(), Io: ioName(c)}
 	var recs []FRec
 	ln.Gen, recs = stlCaseRecs(c)
+	capRecs = len(recs) + 16
 	b := EncodeStl(recs, stlTitle(id))
 	if keep != "" {
 		_ = os.WriteFile(fmt.Sprintf("%s/case%d.stl", keep, id), b, 0o644)
@@ -529,7 +548,11 @@ func runSr(id int, c StlCase, keep string) srLine {
 // binRecs projects what stl.Read returned the way the parser projects a file.
 func binRecs(bin *stl.Binary, enc Enc) []SRec {
 	out := []SRec{}
-	for _, t := range bin.Triangles {
+	for i, t := range bin.Triangles {
+		if i >= capRecs {
+			capHit = true
+			break
+		}
 		rec := SRec{N: []int{f32bits(t.Normal.X), f32bits(t.Normal.Y), f32bits(t.Normal.Z)},
 			Nz: t.Normal.X == 0 && t.Normal.Y == 0 && t.Normal.Z == 0, V: [][]int{}, A: int(t.Attribute)}
 		for _, v := range []stl.Vec{t.Vertex1, t.Vertex2, t.Vertex3} {
@@ -545,6 +568,7 @@ func runSb(id int, c StlCase, keep string) sbLine {
 	ln := sbLine{K: "sb", Id: id, Lat: c.Enc == "lat", F: emptyFile(), Bin: []SRec{}, F2: emptyFile(), Io: ioName(c)}
 	var recs []FRec
 	ln.Gen, recs = stlCaseRecs(c)
+	capRecs = len(recs) + 16
 	b := EncodeStl(recs, stlTitle(id))
 	if keep != "" {
 		_ = os.WriteFile(fmt.Sprintf("%s/case%d.stl", keep, id), b, 0o644)
@@ -556,12 +580,14 @@ func runSb(id int, c StlCase, keep string) sbLine {
 	}
 	var bin *stl.Binary
 	ln.Rerr, ln.Note = guard(func() error {
-		var err error
-		bin, err = stl.Read(wrapReader(b, mode))
-		if err == nil && bin == nil {
-			return fmt.Errorf("nil result without error")
-		}
-		return err
+		return repeat(func() error {
+			var err error
+			bin, err = stl.Read(wrapReader(b, mode))
+			if err == nil && bin == nil {
+				return fmt.Errorf("nil result without error")
+			}
+			return err
+		})
 	})
 	if ln.Rerr != "" {
 		return ln
@@ -569,13 +595,15 @@ func runSb(id int, c StlCase, keep string) sbLine {
 	ln.Bin = binRecs(bin, enc)
 	var b2 []byte
 	ln.Werr, ln.Note = guard(func() error {
-		sk := newSink(c.Wio)
-		if err := stl.Write(sk.W, *bin); err != nil {
+		return repeat(func() error {
+			sk := newSink(c.Wio)
+			if err := stl.Write(sk.W, *bin); err != nil {
+				return err
+			}
+			var err error
+			b2, err = sk.Bytes()
 			return err
-		}
-		var err error
-		b2, err = sk.Bytes()
-		return err
+		})
 	})
 	if ln.Werr != "" {
 		return ln
@@ -588,7 +616,7 @@ func runSb(id int, c StlCase, keep string) sbLine {
 }
 
 // RunStlCases executes cases (ndjson) on the real code and writes the trace.
-func RunStlCases(in, out, keep string) error {
+func RunStlCases(in, out, keep string, budgetSeconds int) error {
 	fi, err := os.Open(in)
 	if err != nil {
 		return err
@@ -606,6 +634,7 @@ func RunStlCases(in, out, keep string) error {
 	sc.Buffer(make([]byte, 1<<20), 1<<28)
 	id := 0
 	defer removeTmp()
+	stop := newStopper(budgetSeconds)
 	for sc.Scan() {
 		if len(sc.Bytes()) == 0 {
 			continue
@@ -614,6 +643,8 @@ func RunStlCases(in, out, keep string) error {
 		if err := json.Unmarshal(sc.Bytes(), &c); err != nil {
 			return fmt.Errorf("case %d: %w", id, err)
 		}
+		setReps(c.Rep)
+		resetCaps()
 		cid := id
 		if c.Cid != nil { // what varies with the case number (titles, material file) is the same in a replay
 			cid = *c.Cid
@@ -639,6 +670,9 @@ func RunStlCases(in, out, keep string) error {
 			return fmt.Errorf("case %d: unknown kind %q", id, c.K)
 		}
 		id++
+		if why := stop.after(); why != "" {
+			return encj.Encode(stopLine{K: "stop", Why: why, Done: id})
+		}
 	}
 	return sc.Err()
 }
